@@ -52,13 +52,23 @@
      C09_attribute_tokens_slice  every such token slices the source exactly to the name and to the value as written
      C09_attributes_doc / C09_match_text_attrs   the attribute tokens match() returns on the text are the attributes
                               of the matched element's tag as written in the document, at their exact ranges
+   The name alphabet (proofs/XmlNames.v; SPEC there: the productions [4] NameStartChar, [4a] NameChar, [5] Name of
+   XML 1.0 (5th ed.) sect. 2.3 as lists of (lo, hi) code point ranges swept by [in_ranges], all planes):
+     C09_name_start_char_is_xml / C09_name_char_is_xml   the scanner's character classes ARE the XML productions
+     C09_grammar_names_are_xml_names   the names of the Level B grammar ([name_ok]) are exactly the XML Names
+     C09_ident_longest_xml_name / C09_ident_fails_without_name   ident consumes the longest prefix that is an XML
+                              Name and fails exactly when no prefix is one
+     C09_scan_xml_named_pair / C09_match_xml_named_pair   `<n a="v">t</n>` for EVERY XML Name n, a (CJK, Hangul,
+                              astral letters ...): both tags at their exact ranges, match() returns the element
+                              with its attribute at every position strictly inside, None elsewhere
    Outside the grammar (covered by correspondence + ground-truth oracle only):
    backslash escapes inside quoted values, white space around `=` or inside close tags, unbalanced quotes in PIs.
    What is proved about the scanner for ALL strings is in props/C16Html.v. *)
 From Coq Require Import List NArith ZArith.
 From Emmet Require Import lib.Base gen.GenHtml model.HtmlScan model.HtmlMatch
   proofs.HtmlScanProofs proofs.HtmlFoldProofs proofs.HtmlC16Proofs proofs.HtmlForestProofs
-  proofs.HtmlRenderLib proofs.HtmlRender proofs.HtmlRenderScan proofs.HtmlRenderCompose proofs.HtmlRenderFree.
+  proofs.HtmlRenderLib proofs.HtmlRender proofs.HtmlRenderScan proofs.HtmlRenderCompose proofs.HtmlRenderFree
+  proofs.XmlNames.
 From Emmet Require lib.StrLit.
 Import ListNotations.
 
@@ -240,6 +250,81 @@ Theorem C09_terminator_free_bodies :
   (forall n b, name_ok n = true -> contains (close_tag n) b = false -> ends_firstb (close_tag n) b = true).
 Proof. exact (conj comment_body_free (conj cdata_body_free raw_body_free)). Qed.
 Print Assumptions C09_terminator_free_bodies.
+
+(* ================================================================== the name alphabet is the XML name alphabet *)
+Theorem C09_name_start_char_is_xml :
+  forall c : char, name_start_char c = true <-> in_ranges xml_name_start_ranges c = true.
+Proof. exact name_start_char_iff. Qed.
+Print Assumptions C09_name_start_char_is_xml.
+
+Theorem C09_name_char_is_xml :
+  forall c : char, name_char c = true <-> in_ranges xml_name_char_ranges c = true.
+Proof. exact name_char_iff. Qed.
+Print Assumptions C09_name_char_is_xml.
+
+(* [in_ranges rs c]: c lies in one of the listed ranges *)
+Theorem C09_in_ranges_spec :
+  forall (rs : list (N * N)) (c : char),
+    in_ranges rs c = true <-> exists lo hi, In (lo, hi) rs /\ (lo <= c <= hi)%N.
+Proof. exact in_ranges_spec. Qed.
+Print Assumptions C09_in_ranges_spec.
+
+Theorem C09_grammar_names_are_xml_names :
+  forall n : str, name_ok n = xml_name n.
+Proof. exact name_ok_xml. Qed.
+Print Assumptions C09_grammar_names_are_xml_names.
+
+Theorem C09_ident_longest_xml_name :
+  forall (s : str) (k : nat),
+    ident s = Some k <->
+    (k <= length s)%nat /\ xml_name (firstn k s) = true /\ stops (in_ranges xml_name_char_ranges) (skipn k s).
+Proof. exact ident_xml_name. Qed.
+Print Assumptions C09_ident_longest_xml_name.
+
+Theorem C09_ident_fails_without_name :
+  forall s : str, ident s = None <-> (forall k, xml_name (firstn k s) = false).
+Proof. exact ident_none_xml. Qed.
+Print Assumptions C09_ident_fails_without_name.
+
+(* [xdoc n a v t] is the document `<n a="v">t</n>` (C09_xdoc_text); [xdoc_ok]: n and a are XML Names, the element
+   is not a raw-text element of the options, v is free of the double quote and of backslash, t free of `<` *)
+Theorem C09_xdoc_text :
+  forall n a v t : str,
+    render (xdoc n a v t) =
+    [c_lt] ++ n ++ [c_space] ++ a ++ [c_eq; c_dquote] ++ v ++ [c_dquote; c_gt] ++ t ++ [c_lt; c_slash] ++ n ++ [c_gt].
+Proof. exact xdoc_text. Qed.
+Print Assumptions C09_xdoc_text.
+
+Theorem C09_scan_xml_named_pair :
+  forall (special : list (str * option (list str))) (n a v t : str),
+    xdoc_ok special n a v t ->
+    scan special (render (xdoc n a v t)) =
+    ([mkEv n EOpen 0%N (x_oe n a v); mkEv n EClose (x_cs n a v t) (x_ce n a v t)], None).
+Proof. exact scan_xml_named_pair. Qed.
+Print Assumptions C09_scan_xml_named_pair.
+
+Theorem C09_match_xml_named_pair :
+  forall (o : opts) (n a v t : str) (pos : Z),
+    xdoc_ok (o_special o) n a v t -> is_self_close o n = false ->
+    html_match o (render (xdoc n a v t)) pos =
+    Ok (if strictly_in 0 pos (x_ce n a v t)
+        then Some (mkMatched n (attr_tokens (N.of_nat (S (length n))) [xattr a v])
+                     (0%N, x_oe n a v) (Some (x_cs n a v t, x_ce n a v t)))
+        else None).
+Proof. exact match_xml_named_pair. Qed.
+Print Assumptions C09_match_xml_named_pair.
+
+(* non-vacuity: `<日本 名前="1">x</日本>` in XML mode at position 4 (the defect report's documents, merged); names
+   with astral letters, U+203F, U+200D are Names, U+203F alone, U+3000, U+F0000 are not *)
+Example C09_xml_names_nonvacuous :
+  let n := [0x65E5; 0x672C]%N in let a := [0x540D; 0x524D]%N in
+  xml_name n = true /\ xml_name a = true /\ xml_name [0x20000; 0x203F; 0x200D; 0xEFFFF]%N = true /\
+  xml_name [0x203F]%N = false /\ xml_name [0x3000]%N = false /\ xml_name [0xF0000]%N = false /\
+  is_raw default_special n [xattr a [49]%N] = false /\
+  html_match (mkOpts true default_special default_empty) (render (xdoc n a [49] [120])%N) 4 =
+    Ok (Some (mkMatched n [mkAttr a 4 6 (Some ([34; 49; 34], 7, 10))%N] (0, 11)%N (Some (12, 17)%N))) /\
+  ident [0x65E5; 0x672C; 62]%N = Some 2%nat.
+Proof. vm_compute. repeat split. Qed.
 
 (* non-vacuity of Level B: a document with every construct of the grammar is in the domain, renders to the
    text shown, and the functions on the text give the record's answers *)
